@@ -30,7 +30,24 @@ IsLife(m)    == m \in {M_ENTER, M_REENTER, M_EXIT}
 IsPhase(m)   == m \in {M_PRE_UPDATE, M_UPDATE, M_POST_UPDATE, M_PRE_REACT, M_REACT, M_POST_REACT}
 IsPlanCb(m)  == m \in {M_PLAN_SUCCEEDED, M_PLAN_FAILED}
 
-Order(e) == SubOrder(e.m, e.s)
+\* The order C15 declares, stated here from the property and NOT taken from the specification (FFSM2!SubOrder), so that the
+\* monitor stays what it is when the specification - or the implementation it mirrors - changes: injections I1..Ik then the class
+\* itself for entryGuard, enter, reenter, preUpdate, update, preReact, react; the exact reverse for exit, postUpdate, postReact;
+\* plan outcomes go to the root class itself only; for exitGuard and query only the members matter (AnyOrder below).
+DeclOrder(m, s) ==
+    LET k   == Injections(s)
+        own == IF Defines(s, m) THEN <<0>> ELSE <<>>
+        fwd == [q \in 1 .. k |-> q]
+        bwd == [q \in 1 .. k |-> k + 1 - q]
+    IN  IF m \in {M_PLAN_SUCCEEDED, M_PLAN_FAILED} THEN own
+        ELSE IF m \in {M_EXIT, M_POST_UPDATE, M_POST_REACT} THEN own \o bwd
+        ELSE fwd \o own
+Order(e) == DeclOrder(e.m, e.s)
+\* C16, stated from the property (not FFSM2!LogDefined): a delivery to a class that itself defines the callback must be recorded
+\* (every delivery under verbose logging); records are accepted in addition for classes that inherit the callback from an
+\* injection and - a measured habit of the library, Appendix B - for the react family and query; nothing else may be recorded
+MustLog(s, m) == Verbose \/ Defines(s, m)
+MayLog(s, m)  == MustLog(s, m) \/ Injections(s) >= 1 \/ m \in {M_PRE_REACT, M_REACT, M_POST_REACT, M_QUERY}
 \* C15 fixes the order of the sub-deliveries (injections, the class itself) for every callback except exitGuard and query: for
 \* these two only "each exactly once" is required, so any permutation is accepted
 AnyOrder(m) == m \in {M_EXIT_GUARD, M_QUERY}
@@ -271,7 +288,7 @@ CheckCb(tk, e, tk2) ==
         a0    == tk.act0
     IN
     \* ---- C15 / C14 / C06: hold for every callback, whatever the classes define
-       V(IF cont THEN TRUE ELSE (tk.dpos = 0 \/ tk.dpos = Len(SubOrder(tk.dm, tk.ds))) /\ DStart(e),
+       V(IF cont THEN TRUE ELSE (tk.dpos = 0 \/ tk.dpos = Len(DeclOrder(tk.dm, tk.ds))) /\ DStart(e),
          "C15", "injections and the state's own callback are not delivered in the declared order, exactly once each")
     \cup V0(e.self = 1, "C14", "the object whose callback runs is not the one access<T>() returns")
     \cup V0(e.sid = e.s, "C14", "control.stateId() inside a callback is not the id of the state the callback belongs to")
@@ -315,13 +332,13 @@ CheckCb(tk, e, tk2) ==
     \cup V0(~tk.logger => e.pre = <<>> /\ \A q \in 1 .. Len(e.acts) : e.acts[q].lg = <<>>,
            "C16", "log records although no logger is attached")
     \cup V(tk.logger /\ cont => e.pre = <<>>, "C16", "log record between the injections and the state's own callback of one delivery")
-    \cup V(tk.logger /\ start /\ (Verbose \/ LogDefined(e.s, e.m)) => e.pre # <<>> /\ Last(e.pre) = <<"m", e.s, e.m>>,
+    \cup V(tk.logger /\ start /\ MustLog(e.s, e.m) => e.pre # <<>> /\ Last(e.pre) = <<"m", e.s, e.m>>,
            "C16", "no method record immediately before the delivery")
-    \cup V(tk.logger /\ start /\ ~(Verbose \/ LogDefined(e.s, e.m)) => (e.pre = <<>> \/ Last(e.pre) # <<"m", e.s, e.m>>),
+    \cup V(tk.logger /\ start /\ ~MayLog(e.s, e.m) => (e.pre = <<>> \/ Last(e.pre) # <<"m", e.s, e.m>>),
            "C16", "method record for a class that defines no such callback without verbose logging")
     \cup V(tk.logger /\ start =>
              \A q \in 1 .. (Len(e.pre) - 1) :
-                \/ e.pre[q][1] = "m" /\ SubOrder(e.pre[q][3], e.pre[q][2]) = <<>>
+                \/ e.pre[q][1] = "m" /\ DeclOrder(e.pre[q][3], e.pre[q][2]) = <<>> /\ MayLog(e.pre[q][2], e.pre[q][3])
                 \/ e.pre[q][1] = "t" /\ ((step /\ \E z \in 1 .. Len(pb) : <<e.pre[q][2], e.pre[q][3]>> = <<pb[z][1], pb[z][2]>>)
                                           \/ (tk.stage = "pre" /\ tk.op \in {"ito", "iwith"} /\ e.pre[q][2] = NONE /\ e.pre[q][3] = tk.oa)),
            "C16", "a log record does not correspond to a delivery or action happening at that moment")
@@ -336,13 +353,13 @@ CheckCb(tk, e, tk2) ==
     \* ---- plan bookkeeping visible in every view
     \cup V0(PlanActsOK(pn, e.acts, 1), "C10", "append / remove result disagrees with the exact task capacity")
     \cup V0(e.pfl = 1, "C10", "the plan's iterators, first(), last() and emptiness test (mutable and const forms) do not describe one sequence")
-    \cup V(CtrlKind(e.m) >= 1 /\ ~step /\ tk.incall /\ tk.dpos > 0 /\ ~(IsPlanCb(tk.dm) /\ tk.dpos = Len(SubOrder(tk.dm, tk.ds))) /\ HasPlanAct(tk.lastacts)
+    \cup V(CtrlKind(e.m) >= 1 /\ ~step /\ tk.incall /\ tk.dpos > 0 /\ ~(IsPlanCb(tk.dm) /\ tk.dpos = Len(DeclOrder(tk.dm, tk.ds))) /\ HasPlanAct(tk.lastacts)
              => pn = pb,
            "C10", "the plan seen after plan edits is not the sequence of tasks appended and not removed")
-    \cup V(CtrlKind(e.m) >= 1 /\ ~step /\ tk.incall /\ tk.dpos > 0 /\ ~(IsPlanCb(tk.dm) /\ tk.dpos = Len(SubOrder(tk.dm, tk.ds))) /\ ~HasPlanAct(tk.lastacts)
+    \cup V(CtrlKind(e.m) >= 1 /\ ~step /\ tk.incall /\ tk.dpos > 0 /\ ~(IsPlanCb(tk.dm) /\ tk.dpos = Len(DeclOrder(tk.dm, tk.ds))) /\ ~HasPlanAct(tk.lastacts)
              => pn = pb,
            "C08", "the plan changed outside the plan step although no callback edited it")
-    \cup V(CtrlKind(e.m) >= 1 /\ tk.dpos > 0 /\ IsPlanCb(tk.dm) /\ tk.dpos = Len(SubOrder(tk.dm, tk.ds)) => pn = <<>>,
+    \cup V(CtrlKind(e.m) >= 1 /\ tk.dpos > 0 /\ IsPlanCb(tk.dm) /\ tk.dpos = Len(DeclOrder(tk.dm, tk.ds)) => pn = <<>>,
            "C09", "the plan is not empty after planSucceeded / planFailed returned")
     \cup (IF ~FullObs THEN {} ELSE
     \* ---- C01
@@ -451,7 +468,7 @@ CheckRet(tk, e, tk2) ==
     \cup V(tk.logger /\ tk.op = "fail" => e.pre = <<<<"s", tk.oa, 1>>>>, "C16", "fail() did not produce exactly one task-status record")
     \cup V(tk.logger =>
              \A q \in 1 .. Len(e.pre) :
-                \/ e.pre[q][1] = "m" /\ SubOrder(e.pre[q][3], e.pre[q][2]) = <<>>
+                \/ e.pre[q][1] = "m" /\ DeclOrder(e.pre[q][3], e.pre[q][2]) = <<>> /\ MayLog(e.pre[q][2], e.pre[q][3])
                 \/ e.pre[q][1] = "t" /\ ((step /\ \E z \in 1 .. Len(pb) : <<e.pre[q][2], e.pre[q][3]>> = <<pb[z][1], pb[z][2]>>)
                                           \/ (tk.op \in {"to", "with", "ito", "iwith"} /\ e.pre[q][2] = NONE /\ e.pre[q][3] = tk.oa))
                 \/ e.pre[q][1] = "s" /\ tk.op \in {"succeed", "fail"},
@@ -491,7 +508,7 @@ CheckRet(tk, e, tk2) ==
     \cup V(actv \/ tk.op = "re" => tk.ent # NONE, "C01", "activation did not enter a state")
     \cup V(tk.op \notin {"exit", "dtor", "enter", "ctor", "re", "load"} => (tk.ent # NONE) = (a0 # NONE), "C01", "the machine was activated or deactivated by an operation that must not do so")
     \* ---- C02: outcome of processing
-    \cup V(tk.dpos = 0 \/ tk.dpos = Len(SubOrder(tk.dm, tk.ds)), "C15", "a delivery ended before every injection and the state's own callback were invoked")
+    \cup V(tk.dpos = 0 \/ tk.dpos = Len(DeclOrder(tk.dm, tk.ds)), "C15", "a delivery ended before every injection and the state's own callback were invoked")
     \cup V(proc /\ sv # NoT => tk.life = LifeFor(a0, sv[2]) /\ e.act = sv[2], "C02", "the active state is not the destination of the most recent request that survived its guards (reached by exit+enter, or reenter)")
     \cup V(proc /\ sv = NoT => tk.life = <<>> /\ e.act = a0, "C02", "enter/exit/reenter ran or the active state changed although no request survived")
     \cup V(tk.op \in PassiveOps => tk.life = <<>> /\ e.act = a0, "C02", "a request changed the active state at the moment it was made")
